@@ -36,6 +36,7 @@ type C14Plan struct {
 	Paths []string        `json:"paths,omitempty"`
 	Names []string        `json:"names,omitempty"`
 	Dur   int             `json:"dur,omitempty"`
+	Adds  []C14Add        `json:"adds,omitempty"` // blacklist: further add_ip_blacklist calls for the same address after the first
 	Tcp   bool            `json:"tcp,omitempty"`
 }
 
@@ -91,6 +92,21 @@ func genC14Plan(r *sim.Rng, tier string) C14Plan {
 		}
 	case "blacklist":
 		p.Dur = 1 + r.Intn(30)
+		if r.Bool(0.5) {
+			p.Dur = 1 + r.Intn(3)
+		}
+		for i := 0; i < r.Intn(3); i++ {
+			a := C14Add{Dur: 1 + r.Intn(40), Probe: r.Bool(0.4)}
+			switch r.Intn(3) {
+			case 0:
+				a.AfterMs = r.Intn(900) // while the previous entry is certainly alive
+			case 1:
+				a.AfterMs = p.Dur*1000 + 1500 + r.Intn(3000) // after it has expired
+			default:
+				a.AfterMs = r.Intn(p.Dur*1000 + 2000)
+			}
+			p.Adds = append(p.Adds, a)
+		}
 	case "hlspath":
 		for i := 0; i < n+4; i++ {
 			p.Paths = append(p.Paths, c14Paths[r.Intn(len(c14Paths))])
@@ -492,6 +508,13 @@ func runC14Kick(k *sim.Kernel, w *World, p C14Plan) {
 	}
 }
 
+// C14Add is one more add_ip_blacklist call for the address that is already (or was) listed.
+type C14Add struct {
+	AfterMs int  `json:"after_ms"` // simulated time since the previous add
+	Dur     int  `json:"dur"`
+	Probe   bool `json:"probe"` // request the playlist from the address just before this add
+}
+
 func c14HlsGet(k *sim.Kernel, name, path string, ipk int) *actors.HttpClient {
 	a := actors.NewHttpClient(k, name, "get", path)
 	a.Connect(PortHttp, ipk)
@@ -520,6 +543,57 @@ func runC14Blacklist(k *sim.Kernel, w *World, p C14Plan) {
 		k.Violate("C14.blacklist-api", "add_ip_blacklist answered %d / %s", res.Status, res.Body)
 	}
 	t0 := k.NowMs()
+	// further adds for the same address: whatever the semantics of a re-add (latest wins / longest wins), the address
+	// is denied while the latest add has not expired and admitted once every add has
+	maxEnd := t0 + int64(p.Dur)*1000
+	lastEnd := maxEnd
+	for i, ad := range p.Adds {
+		k.Advance(time.Duration(ad.AfterMs) * time.Millisecond)
+		if ad.Probe {
+			ok, a := get(fmt.Sprintf("between%d", i), 33)
+			now := k.NowMs()
+			if ok && now < lastEnd-600 {
+				k.Violate("C14.blacklist-served", "the black-listed address got the playlist %d ms before the expiry of its latest listing", lastEnd-now)
+			}
+			if !ok && now > maxEnd+2100 {
+				k.Violate("C14.blacklist-not-expired", "the address is still denied %d ms after every listing expired (status %d)", now-maxEnd, a.Resp.Status)
+			}
+		}
+		body, _ := json.Marshal(map[string]interface{}{"ip": "10.0.33.1", "duration_sec": ad.Dur})
+		if res := w.Api(fmt.Sprintf("api-bl%d", i), "/api/ctrl/add_ip_blacklist", body); !res.Done || res.ErrorCode() != 0 {
+			k.Violate("C14.blacklist-api", "add_ip_blacklist answered %d / %s", res.Status, res.Body)
+		}
+		lastEnd = k.NowMs() + int64(ad.Dur)*1000
+		if lastEnd > maxEnd {
+			maxEnd = lastEnd
+		}
+		k.Probe("c14_blacklist_readd")
+	}
+	if len(p.Adds) > 0 {
+		for i, frac := range []int64{0, 500, 1000} {
+			at := k.NowMs()
+			if frac > 0 {
+				at = lastEnd - int64(p.Adds[len(p.Adds)-1].Dur)*(1000-frac) - 600*frac/1000
+			}
+			if d := at - k.NowMs(); d > 0 {
+				k.Advance(time.Duration(d) * time.Millisecond)
+			}
+			if k.NowMs() >= lastEnd-500 {
+				break
+			}
+			if ok, a := get(fmt.Sprintf("re%d", i), 33); ok || strings.Contains(string(a.Resp.Body), "#EXT") {
+				k.Violate("C14.blacklist-served", "the address got the playlist %d ms before the expiry of its latest listing (%d listings)", lastEnd-k.NowMs(), 1+len(p.Adds))
+			}
+		}
+		if d := maxEnd + 2100 - k.NowMs(); d > 0 {
+			k.Advance(time.Duration(d) * time.Millisecond)
+		}
+		if ok, a := get("after", 33); !ok {
+			k.Violate("C14.blacklist-not-expired", "the address is still denied %d ms after every one of its %d listings expired (status %d)", k.NowMs()-maxEnd, 1+len(p.Adds), a.Resp.Status)
+		}
+		k.Probe("nontrivial")
+		return
+	}
 	// before expiry: several instants, the last one just inside the window
 	for i, at := range []int{0, p.Dur * 500, p.Dur*1000 - 600} {
 		if d := int64(at) - (k.NowMs() - t0); d > 0 {
